@@ -1,18 +1,15 @@
 package main
 
-func init() {
-	register("C01", "mechanism clauses of single flight", nil, func(c *Ctx) {
-		a := c.P.cacheAnchors()
-		if !a.ok {
-			c.undecided("anchors", "cache", "-", "unresolved: "+joinStr(a.missing))
-			return
-		}
-		ruleLookup(c, a, nil)
-		ruleLockedWrapper(c, a)
-		ruleStoreLoadAtomic(c, a)
-		ruleDrainShape(c, a)
-		ruleCompletionPaths(c, a, nil)
-	})
+// Property registrations: which rules make up each property's check. A rule
+// shared by several properties is evaluated under each property's id, restricted
+// to the sub-rules that are a necessary condition of that property.
+
+func set(xs ...string) map[string]bool {
+	m := map[string]bool{}
+	for _, x := range xs {
+		m[x] = true
+	}
+	return m
 }
 
 func joinStr(xs []string) string {
@@ -24,4 +21,87 @@ func joinStr(xs []string) string {
 		s += x
 	}
 	return s
+}
+
+func withAnchors(c *Ctx, f func(a *serverAnchors)) {
+	a := c.P.serverAnchors()
+	if !a.ok {
+		c.undecided("anchors", "cache+server", "-", "unresolved: "+joinStr(a.missing))
+		return
+	}
+	f(a)
+}
+
+func init() {
+	register("C01",
+		"Decides, on every control-flow path, the mechanism that makes one-fetch-per-unknown-key possible: the lookup's transition relation over four abstract entry states (only the unknown state becomes fetching, exactly the requests that find it fetching are registered as waiters and get the registered channel, a hit returns the stored response), the locked wrapper (lookup under the write lock; a woken waiter re-evaluates under the lock), get-or-create of the entry in one shard critical section, the shard function, and the cache middleware forwarding only non-hit states exactly once. The schedule quantifier itself (that the Go runtime, given these shapes, yields one fetch on every interleaving) is not decided.",
+		nil, func(c *Ctx) {
+			withAnchors(c, func(a *serverAnchors) {
+				ruleLookup(c, a.cacheA, set("lookup-shape", "state-determined", "no-exit-unknown", "fetching-only-from-unknown", "registration", "returned-status", "hit-data", "invariant-waiters", "no-waiter-dropped"))
+				ruleLockedWrapper(c, a.cacheA)
+				ruleCacheMiddleware(c, a, set("hit-does-not-forward", "hit-serves-stored", "forward-once", "entry-of-request-key", "completion-only-by-fetcher"))
+				ruleProxyMiddleware(c, a, set("forward-once"))
+			})
+		})
+	register("C02",
+		"Decides that a wake-up cannot be lost or withheld by construction: every function that stores a terminal status reaches, on every return path, an exhaustive loop of blocking sends over the previous waiter list and clears the list, under the entry's write lock; the data invariant (not fetching => no waiters; unknown/fetching => no expiry) is inductive over the lookup, so no registered waiter is ever dropped; the fetcher's ticket is discharged exactly once on normal, error and downstream-panic exits of the cache middleware; the waiter's receive is a plain receive with no lock held; a configured proxy timeout reaches the upstream call. Liveness under the real scheduler is not decided.",
+		nil, func(c *Ctx) {
+			withAnchors(c, func(a *serverAnchors) {
+				ruleDrainShape(c, a.cacheA)
+				ruleCompletionPaths(c, a.cacheA, set("completes-on-every-path", "locked"))
+				ruleLookup(c, a.cacheA, set("state-determined", "invariant-expiry", "invariant-waiters", "no-waiter-dropped", "no-exit-unknown", "registration"))
+				ruleStoreLoadAtomic(c, a.cacheA)
+				ruleLockedWrapper(c, a.cacheA)
+				ruleCacheMiddleware(c, a, set("ticket-discharge", "completion-only-by-fetcher"))
+				ruleProxyMiddleware(c, a, set("proxy-deadline", "upstream-error-propagates"))
+			})
+		})
+	register("C03",
+		"Decides the gating structure for all header sets and methods: a non-zero lifetime is returned only after the Set-Cookie presence test, the Cache-Control emptiness test and the case-insensitive no-cache/no-store/private test (over all Cache-Control lines) have failed; the lifetime is the captured s-maxage, else max-age, minus a positive Age; only these three headers are consulted; storing is gated by fetching state, lifetime > 0, a non-nil response and a successful downstream handler; non-GET/HEAD requests bypass the cache and every request is forwarded at most once; the status label is the lookup's status. Numeric semantics of strconv.Atoi and directive tokenisation are not decided.",
+		nil, func(c *Ctx) {
+			withAnchors(c, func(a *serverAnchors) {
+				ruleMaxAge(c, a, nil)
+				rulePassMethods(c, a)
+				ruleCacheMiddleware(c, a, set("pass-methods", "forward-once", "label", "hit-does-not-forward", "store-gate", "completion-only-by-fetcher"))
+				ruleProxyMiddleware(c, a, set("forward-once", "lifetime-plumbing", "upstream-error-propagates"))
+			})
+		})
+	register("C04",
+		"Decides that the expiry test (expiredAt >= clock read in this call) is applied on every lookup path that serves a hit or hit-for-pass state, after any load from the store and on the expiry value actually current; that an expired entry is reset; that the stored expiry is clock + ttl with 1 <= ttl <= 2^31 (no wrap) and createdAt is that same clock value; that a woken waiter re-runs the lookup (and its expiry test); that nothing on the lookup path extends the expiry; Age is clock - createdAt and is emitted only on hits. Timed histories themselves are not decided.",
+		nil, func(c *Ctx) {
+			withAnchors(c, func(a *serverAnchors) {
+				ruleLookup(c, a.cacheA, set("state-determined", "expiry-applied", "invariant-expiry", "hit-data", "returned-status"))
+				ruleCompletionPaths(c, a.cacheA, set("expiry-value", "ttl-positive", "no-wrap", "stores-response"))
+				ruleLockedWrapper(c, a.cacheA)
+				ruleCacheMiddleware(c, a, set("hit-age", "hit-serves-stored", "store-gate"))
+			})
+		})
+	register("C07",
+		"Decides, for all configured periods: a lookup in hit-for-pass state is never queued and never served a response; the marker always gets a period >= 1 (the default when the configured one is <= 0) added to the clock; it lapses through the same expiry test as hits; the configured period is what the fetcher passes; non-fetcher requests never complete (extend) the entry; hit-for-pass requests are forwarded once and reach the upstream with their headers untouched. Timed histories are not decided.",
+		nil, func(c *Ctx) {
+			withAnchors(c, func(a *serverAnchors) {
+				ruleLookup(c, a.cacheA, set("state-determined", "registration", "hit-data", "expiry-applied", "invariant-expiry", "returned-status"))
+				ruleCompletionPaths(c, a.cacheA, set("completes-on-every-path", "ttl-positive", "expiry-value"))
+				ruleCacheMiddleware(c, a, set("ticket-discharge", "hit-for-pass-period", "completion-only-by-fetcher", "forward-once"))
+				ruleProxyMiddleware(c, a, set("withheld-on-fetch", "lifetime-plumbing"))
+			})
+		})
+	register("C08",
+		"Decides the safety clauses: a record is read from the store only on the first lookup of an unknown entry; it is adopted all-or-nothing, only as hit/hit-for-pass with a non-zero expiry (hit with a response); pike's own expiry test is applied to the adopted expiry before the state is served; absolute createdAt/expiredAt are what is written and restored. The crash-point quantifier (what the store's files contain after a kill) is not applicable to static analysis.",
+		nil, func(c *Ctx) {
+			withAnchors(c, func(a *serverAnchors) {
+				ruleLookup(c, a.cacheA, set("state-determined", "load-on-first-lookup", "load-only-when-unknown", "expiry-applied", "invariant-expiry", "hit-data"))
+				ruleStoreLoadAtomic(c, a.cacheA)
+			})
+		})
+	register("C10",
+		"Decides that store failures cannot reach clients or strand waiters: a failed, truncated or impossible record leaves the live entry untouched (all-or-nothing adoption) and the lookup continues as a miss; every completion path drains the waiters and sets the state whatever the store write returns; the fetcher's ticket is always discharged. Slow calls and flipped body bits are not decided.",
+		nil, func(c *Ctx) {
+			withAnchors(c, func(a *serverAnchors) {
+				ruleStoreLoadAtomic(c, a.cacheA)
+				ruleLookup(c, a.cacheA, set("state-determined", "invariant-expiry", "invariant-waiters", "no-exit-unknown", "load-only-when-unknown"))
+				ruleCompletionPaths(c, a.cacheA, set("completes-on-every-path"))
+				ruleDrainShape(c, a.cacheA)
+			})
+		})
 }
